@@ -132,7 +132,13 @@ def advance (s : StrIt) : StrIt × AdvRes :=
     | some p =>
       if s.text.length - p = 0 then ({ s with pos := none, endNull := true }, .last)
       else match s.restore with
-        | some r => ({ s with pos := some (r + 1), restore := none, patched := false }, .more)
+        | some r =>
+          -- white space behind the last element is no further element (fix in /repo: a phantom element whose
+          -- conversion reported MissingData used to follow)
+          let sepSpace : Bool := match s.text[r]? with | some c => isSpace c | none => false
+          if sepSpace = true ∧ (s.text.drop (r + 1)).all isSpace = true then
+            ({ s with pos := none, restore := none, patched := false }, .last)
+          else ({ s with pos := some (r + 1), restore := none, patched := false }, .more)
         | none => ({ s with pos := none }, .last)      -- no NUL inside the remaining text
 
 /-- `parseReset` -/
